@@ -84,7 +84,7 @@ func HC19_anchoring() {
 	if rt.Bool("last-not-considered") {
 		chose = chose[:A-1]
 	}
-	w := vh.Weights("w.", crit, 0.125, 4)
+	w := vh.Weights("w.", crit, 0, 4) // includes importances below 0.01: the applier raises them
 	mp := majority.MajorityHeuristicParams{Weights: w}
 	current := vh.Params(known, chose, crit, mp)
 	var listener model.BiasListener = &majority.MajorityBiasListener{}
